@@ -150,6 +150,9 @@ func RunReplay(t *testing.T, funcs map[string]func()) {
 	fmt.Printf("ZZ-REPLAY-START %s\n", rf.Harness)
 	func() {
 		defer func() {
+			if os.Getenv("ZZ_NORECOVER") != "" {
+				return
+			}
 			if r := recover(); r != nil {
 				if _, ok := r.(assumeFailed); ok {
 					fmt.Printf("ZZ-ASSUME-FAILED\n")
